@@ -25,9 +25,10 @@ def parseCStringFromStream (data : Bytes) (pos : Nat) (chunk : Nat := 64) : R (O
 def seekCheck (pos : Nat) : R Unit :=
   if pos ≥ 2 ^ 63 then .error .overflowError else .ok ()
 
-/-- `struct_parse(struct, stream, stream_pos=pos)` including the seek -/
+/-- `struct_parse(struct, stream, stream_pos=pos)` including the seek; `struct_parse` wraps the
+    OverflowError of an unrepresentable offset into ELFParseError, like construct's own errors -/
 def structParseAt (env : Env) (c : Con) (data : Bytes) (pos : Nat) : R (Val × Nat) := do
-  seekCheck pos
+  if pos ≥ 2 ^ 63 then throw .elfParseError
   structParse env c data pos
 
 /-- `parse_cstring_from_stream(stream, stream_pos=pos)` including the seek -/
